@@ -9,7 +9,7 @@ use std::collections::HashMap;
 use crate::error::{Result, FerrousError};
 use crate::protocol::resp::RespFrame;
 use crate::storage::StorageEngine;
-use crate::storage::lua_engine::{get_lua_engine, LuaCommandContext};
+use crate::storage::lua_engine::{get_lua_engine, has_error_code, LuaCommandContext};
 
 /// Process KEYS and ARGV from RESP frames
 fn process_keys_and_args(parts: &[RespFrame], start_idx: usize, num_keys: usize) -> std::result::Result<(Vec<Vec<u8>>, Vec<Vec<u8>>), String> {
@@ -108,16 +108,16 @@ pub fn handle_eval_with_db(storage: &Arc<StorageEngine>, parts: &[RespFrame], db
                             let end_pos = error_content.find('\n').unwrap_or(error_content.len());
                             let clean_error = error_content[..end_pos].trim();
                             
-                            if clean_error.starts_with("ERR ") {
+                            if has_error_code(clean_error) {
                                 clean_error.to_string()
                             } else {
                                 format!("ERR {}", clean_error)
                             }
                         } else {
-                            if msg.starts_with("ERR ") { msg.clone() } else { format!("ERR {}", msg) }
+                            if has_error_code(msg) { msg.clone() } else { format!("ERR {}", msg) }
                         }
                     } else {
-                        if msg.starts_with("ERR ") {
+                        if has_error_code(msg) {
                             msg.clone()
                         } else {
                             format!("ERR {}", msg)
